@@ -4,13 +4,14 @@
    Semver/Pep440Print_proofs.v.
 
    The three clauses are false for the code as it is (known findings F-C10-21: release
-   segments after a wildcard, F-C10-22: numbers >= 2^63 stored as negative ints); the
-   _refuted theorems exhibit the witnesses, which the check replays on the Go code.
-   The _partial theorems are the clauses on the domain c10_pypi_dom (wildcard only in
-   last position, no negative pre/post/dev number). *)
+   segments after a wildcard, F-C10-22: numbers >= 2^63 stored as negative ints,
+   F-C10-23: the infinity sign as first release number); the _refuted theorems exhibit
+   the witnesses, which the check replays on the Go code.  The _partial theorems are the
+   clauses, for ALL accepted strings, on the domain c10_pypi_dom (a wildcard only in
+   last position, no negative pre/post/dev number, first release number not infinity). *)
 From Coq Require Import List ZArith Lia.
 From DepsDev Require Import Lib.Base Lib.Order Semver.Version Semver.Pep440 Semver.Pep440Parse Semver.Compare
-  Semver.Pep440Abs Semver.Pep440_proofs Semver.Pep440Parse_proofs.
+  Semver.Pep440Abs Semver.Pep440_proofs Semver.Pep440Parse_proofs Semver.Pep440Print_proofs.
 Import ListNotations.
 Local Open Scope Z_scope.
 
@@ -69,6 +70,41 @@ Proof.
   specialize (H _ _ _ _ P1 P2 C). lia.
 Qed.
 Print Assumptions C10_pypi_inj_refuted_wildcard.
+
+(* 01!<inf>: accepted, canonical string 1!<inf>.0.0 is rejected (possibleVersionString) *)
+Lemma C10_pypi_witness_infinity :
+  exists v, parse_pypi [48;49;33;226;136;158]%N = Ok v /\ canon true v = [49;33;226;136;158;46;48;46;48]%N /\ parse_pypi (canon true v) = Err E_syntax.
+Proof. eexists. split; [vm_compute; reflexivity|]. split; vm_compute; reflexivity. Qed.
+
+Theorem C10_pypi_reparse_refuted_infinity : ~ C10_pypi_reparse_full.
+Proof.
+  intros H. destruct C10_pypi_witness_infinity as (v & P & _ & E).
+  destruct (H _ _ P) as (w & Pw & _). rewrite E in Pw. discriminate.
+Qed.
+Print Assumptions C10_pypi_reparse_refuted_infinity.
+
+(* ---------- the clauses on the domain c10_pypi_dom, for every accepted string ---------- *)
+Theorem C10_pypi_reparse_partial s v : parse_pypi s = Ok v -> dom_v v = true ->
+  exists v', parse_pypi (canon true v) = Ok v' /\ vcmp v v' = 0.
+Proof. intros P D. destruct (c10_reparse s v P D) as (v' & A & B & _). exists v'; auto. Qed.
+Print Assumptions C10_pypi_reparse_partial.
+
+Theorem C10_pypi_idem_partial s v v' : parse_pypi s = Ok v -> dom_v v = true ->
+  parse_pypi (canon true v) = Ok v' -> canon true v' = canon true v.
+Proof. exact (c10_idem s v v'). Qed.
+Print Assumptions C10_pypi_idem_partial.
+
+Theorem C10_pypi_inj_partial s1 s2 v1 v2 : parse_pypi s1 = Ok v1 -> parse_pypi s2 = Ok v2 ->
+  dom_v v1 = true -> dom_v v2 = true ->
+  canon true v1 = canon true v2 -> vcmp v1 v2 = 0.
+Proof. exact (c10_inj s1 s2 v1 v2). Qed.
+Print Assumptions C10_pypi_inj_partial.
+
+(* the domain is inhabited: 1!2.0rc1.post2.dev3+a.1, 1.* and 1.<inf>a0 are accepted and in it *)
+Example C10_pypi_dom_inhabited :
+  forallb (fun s => match parse_pypi s with Ok v => dom_v v | _ => false end)
+    [[49;33;50;46;48;114;99;49;46;112;111;115;116;50;46;100;101;118;51;43;97;46;49]%N; [49;46;42]%N; [49;46;226;136;158;97;48]%N] = true.
+Proof. vm_compute. reflexivity. Qed.
 
 (* pypi.CanonVersion (util/pypi/metadata.go) is Canon(true) of the parsed version, and the
    string itself when it does not parse. *)
